@@ -16,7 +16,8 @@ package oracle
 //	              summary = sum of the cells of the row
 //	top-file      per language: files in non-increasing order of code lines; per-file code == planted; every file
 //	              outside the ignored directories MUST be listed, files inside them MAY be (same reason as above);
-//	              the printed table of a language is the first min(N, len) entries of that list.
+//	              the printed table of a language has min(N, len) rows, in non-increasing order, carrying the
+//	              min(N, len) largest figures of that list.
 //
 // Not asserted: complexity, bytes, comment/blank figures, the `Location` text of the printed table beyond being a
 // suffix of the path of a file with that language and figure, whether tables are printed at all when the report
@@ -413,6 +414,29 @@ func CheckClocTopFile(t *treegen.Tree, flt ClocFilter, n int, langs []ClocTopLan
 			}
 			add(sig, "%s: %d rows printed, the language has %d files and the requested size is %d", tb.Language, len(tb.Rows), len(l.Files), n)
 		}
+		// the printed rows are the `want` largest figures of the language's list (the multiset of the N largest
+		// values is unique even with ties)
+		all := make([]int, 0, len(l.Files))
+		for _, f := range l.Files {
+			all = append(all, f.Code)
+		}
+		sort.Sort(sort.Reverse(sort.IntSlice(all)))
+		got := make([]int, 0, len(tb.Rows))
+		for _, r := range tb.Rows {
+			if v, err := strconv.Atoi(r.Length); err == nil {
+				got = append(got, v)
+			}
+		}
+		sort.Sort(sort.Reverse(sort.IntSlice(got)))
+		if len(got) == want && len(tb.Rows) == want {
+			for j := range got {
+				if got[j] != all[j] {
+					add("top-table-not-the-largest", "%s: the %d printed rows have code lines %v, the %d largest of the %d listed files have %v",
+						tb.Language, want, clipInts(got, 12), want, len(l.Files), clipInts(all[:want], 12))
+					break
+				}
+			}
+		}
 		prev := 0
 		for j, r := range tb.Rows {
 			v, err := strconv.Atoi(r.Length)
@@ -459,4 +483,11 @@ func CheckClocTopFile(t *treegen.Tree, flt ClocFilter, n int, langs []ClocTopLan
 		}
 	}
 	return ms
+}
+
+func clipInts(xs []int, n int) []int {
+	if len(xs) > n {
+		return xs[:n]
+	}
+	return xs
 }
